@@ -225,7 +225,61 @@ def r4_only_cache_classes_write_cache(ctx):
     ctx.require(n, "no cache write found anywhere")
 
 
+def r5_no_rebuild_without_change(ctx):
+    """The build throws every resolved combination away.  Outside the update method (which runs on a change) it may
+    only be invoked under `not <built flag>`; the first-call trampoline, which the build replaces, is exempt."""
+    repo = ctx.repo
+    oc = A.function_class(repo)
+    build = A.build_method(repo)
+    upd = A.update_method(repo)
+    from .common import holds_at
+
+    n = 0
+    for m in oc.methods.values():
+        if m is build:
+            continue
+        rv = recv_name(m)
+        for c in ast.walk(m.node):
+            if isinstance(c, ast.Call) and is_self_attr(c.func, build.name, selfname=rv):
+                n += 1
+                ctx.touch(m)
+                if m is upd:
+                    ok = holds_at(ctx, m, c, lambda a: a[0] == "truthy" and is_self_attr(a[1], "_compiled", selfname=rv))
+                    ctx.ob(f"{m.key}:rebuild-on-change", m.loc(c), f"{m.name}() rebuilds a function that is already in use (and only such a function)", ok, "the update method rebuilds unconditionally or never")
+                    continue
+                ok = holds_at(ctx, m, c, lambda a: a[0] == "falsy" and is_self_attr(a[1], "_compiled", selfname=rv))
+                ctx.ob(
+                    f"{m.key}:build-only-if-unbuilt",
+                    m.loc(c),
+                    f"{m.name}() builds only when the function has not been built yet (`not {rv}._compiled`)",
+                    ok,
+                    f"{m.name}() calls {build.name}() unconditionally: every use replaces the dispatch table by an empty one, so every argument-type combination is resolved again (user predicates and order hooks are consulted again) although no method changed",
+                )
+    ctx.require(n >= 3, "expected the lazy-build sites and the update method")
+
+
+def r6_emitted_checks_skip_class_level_tests(ctx):
+    dm = A.dependent_meta(ctx.repo)
+    cg = dm.methods["codegen"]
+    ctx.touch(cg)
+    from ..model import str_value
+
+    tpls = [str_value(c.args[0]) for c in ast.walk(cg.node) if isinstance(c, ast.Call) and call_name(c) == "CodeGen" and c.args]
+    ctx.require(tpls, f"{cg.key}: no check template")
+    for t in tpls:
+        direct = ".check(" in (t or "") and "isinstance" not in (t or "")
+        ctx.ob(
+            f"{cg.key}:template",
+            cg.loc(),
+            f"the per-call check emitted for a dependent type evaluates its condition directly (`{t}`); the bound was established when the combination was resolved",
+            direct,
+            f"the emitted per-call check `{t}` goes through isinstance(), which re-tests the bound: with a class-predicate bound the user's predicate is consulted on every call of an already resolved combination",
+        )
+
+
 RULES = [
+    ("C20.R5", "P1", r5_no_rebuild_without_change, "no rebuild without a change"),
+    ("C20.R6", "P1", r6_emitted_checks_skip_class_level_tests, "emitted value checks do not repeat class-level tests"),
     ("C20.R1", "P1", r1_hot_paths_subscript, "hot paths subscript the table"),
     ("C20.R2", "P1", r2_success_is_reread, "success is a re-read"),
     ("C20.R4", "P1", r4_only_cache_classes_write_cache, "only the cache classes write cache entries"),
